@@ -72,6 +72,29 @@ THEOREMS = [
     'C03_number_items_distinct',
     'C03_expand_macro_den',
     'C03_expand_facet_zero_is_last',
+    'C03_convert_entry_sound',
+    'C03_written_inside',
+    'C03_box_written',
+    'C03_rpp_written',
+    'C03_sph_written',
+    'C03_rcc_written',
+    'C03_rhp15_written',
+    'C03_rhp9_written',
+    'C03_rec12_written',
+    'C03_rec10_written',
+    'C03_trc_written',
+    'C03_ell_axis_written',
+    'C03_ell_foci_written',
+    'C03_wed_written',
+    'C03_arb_written',
+    'C03_box_written_solid',
+    'C03_wed_written_solid',
+    'C03_box_general_facet_k',
+    'C03_box_general_written',
+    'C03_para_facets_right',
+    'C03_pot_transform_facet',
+    'C03_pot_transform_whole',
+    'C03_pot_transform_out_of_range',
 ]
 TRUSTED = [
     'hand-written model coq/C03/Vec.v + Model.v (modelled, tied by execution '
@@ -905,7 +928,7 @@ def run(res, tier, seed, proofs_ok):
     # TR of the surface card); pot_transform on facet references
     cv_cases, cv_meta = [], []
     pt_cases, pt_meta = [], []
-    step = 1 if not quick else 2
+    step = 1 if not quick else 3
     for idx, (mn, prm, fault, out) in enumerate(meta):
         if out[0] != 'ok' or idx % step:
             continue
@@ -1135,7 +1158,7 @@ def run(res, tier, seed, proofs_ok):
                       found_input=False)
 
     # ---- 3. sweep with the independent oracle ----
-    n_decks = 220 if quick else 2000
+    n_decks = 150 if quick else 2000
     n_random, n_near = (60, 4) if quick else (200, 8)
     pool = [(mn, prm) for mn, prm, fault in inputs if fault is None]
     rng.shuffle(pool)
@@ -1194,11 +1217,11 @@ def run(res, tier, seed, proofs_ok):
     res.count('sweep:trc_facet1_other_sheet', skipped_sheet)
     res.obligation(f'sweep: {checked} membership comparisons of probe cells '
                    '-b, +b, -b.k, +b.k against mcnpref.macro_facets',
-                   checked > (100000 if quick else 1000000),
+                   checked > (80000 if quick else 1000000),
                    f'{checked} comparisons')
 
     # ---- 3b. transformed cells referencing one body in several ways ----
-    n_tdecks = 70 if quick else 700
+    n_tdecks = 60 if quick else 700
     tchecked = 0
     tpool = [b for b in pool if n_facets(*b) >= 1]
     # fixed cases first: the RPP of the seeded-change demo under every placement
